@@ -1358,7 +1358,20 @@ impl Interp {
             }
             ROp::UpdateIndex { by } => w.tx(by, HUB, &HubExec::UpdateGlobalIndex { airdrop_hooks: None }, &[]),
             ROp::CheckSlashing { by } => w.tx(by, HUB, &HubExec::CheckSlashing {}, &[]),
-            ROp::Migrate { contract } => w.migrate(contract),
+            ROp::Migrate { contract } => {
+                let msg = if contract == HUB {
+                    to_json_binary(&basset::hub::MigrateMsg {
+                        reward_dispatcher_contract: DISP.into(),
+                        validators_registry_contract: REG.into(),
+                        stsei_token_contract: STSEI.into(),
+                        rewards_contract: REWARD.into(),
+                    })
+                    .unwrap()
+                } else {
+                    cosmwasm_std::Binary::from(b"{}".to_vec())
+                };
+                w.migrate(contract, msg)
+            }
             ROp::Advance { secs } => {
                 w.advance(*secs);
                 Ok(w.trace[t0..].to_vec())
